@@ -144,9 +144,12 @@ func (s *promiseStack) pop() *Promise {
 
 func (s *promiseStack) popUntil(p *Promise) {
 	for len(*s) > 0 {
-		if pop := s.pop(); pop == p {
-			break
+		if top := (*s)[len(*s)-1]; top == p {
+			// Keep the parent as an exhausted marker so that later cuts of the same clause still find it.
+			p.delayed = nil
+			return
 		}
+		s.pop()
 	}
 }
 
